@@ -58,6 +58,13 @@ pub fn execute_c18(case: &Case, cov: &mut Cov) -> Option<Violation> {
         }
         seq_tx.push(txs);
     }
+    {
+        let mut f = crate::util::Fnv::new();
+        for txs in seq_tx.iter() {
+            f.put_u64(txs.last().copied().unwrap_or(0));
+        }
+        cov.aux = f.0;
+    }
     // 2. interleaved, with every operation placed on a worker thread
     let mut to_worker: Vec<mpsc::SyncSender<Option<(SendWorld, Ev, usize)>>> = vec![];
     let (back_tx, back_rx) = mpsc::sync_channel::<(SendWorld, Result<(), Violation>, Cov)>(0);
@@ -192,4 +199,25 @@ pub fn gen_c18(rng: &mut Prng, run: u64, t: &Tier) -> Vec<Ev> {
         out.push(Ev::On { w: cur, t: cur_thread[cur], inner: Box::new(ev) });
     }
     out
+}
+
+/// Hash of the transcripts of all worlds of a case, each executed alone on the calling thread.
+/// Used to compare processes with different histories (results must not depend on earlier calls).
+pub fn isolated_aux(case: &Case) -> u64 {
+    let per = split(case);
+    let mut f = crate::util::Fnv::new();
+    for evs in per.iter() {
+        let mut w = new_world();
+        let mut c = Cov::new();
+        let mut last = 0u64;
+        for (gi, _, ev) in evs.iter() {
+            w.ev_idx = *gi;
+            if w.apply(ev, &mut c).is_err() {
+                break;
+            }
+            last = w.tx.0;
+        }
+        f.put_u64(last);
+    }
+    f.0
 }
